@@ -1,4 +1,8 @@
+mod bincase;
+mod db;
 mod dom;
+mod gen;
+mod pval;
 mod sstr;
 
 use std::io::{BufWriter, Write};
@@ -29,6 +33,16 @@ fn main() {
             let episodes: usize = arg(&args, "--episodes", "10").parse().unwrap();
             let steps: usize = arg(&args, "--steps", "40").parse().unwrap();
             dom::drive(seed, episodes, steps, max_ref, slots, &mut out);
+        }
+        "bin-cases" => {
+            let seed: u64 = arg(&args, "--seed", "1").parse().unwrap();
+            let count: usize = arg(&args, "--count", "50").parse().unwrap();
+            let maxi: usize = arg(&args, "--max-instances", "6").parse().unwrap();
+            let mode = arg(&args, "--mode", "mixed");
+            bincase::run_random(seed, count, maxi, &mode, &mut out);
+        }
+        "export-db" => {
+            db::export(rbx_reflection_database::get(), &mut out);
         }
         "sstr-replay" => {
             let threads: usize = arg(&args, "--threads", "3").parse().unwrap();
